@@ -513,6 +513,19 @@ func RunC14(t *kernel.Tape, o Opts) *Result {
 	}
 	res.Yields = len(k.trace)
 	res.Distinct = hashStrings(k.trace...)
+	{
+		ctx := context.Background()
+		obs := append([]string(nil), k.trace...)
+		for _, sys := range c14Systems {
+			for _, lists := range [][]string{c14Pkgs[sys], c14Outside[sys]} {
+				for _, name := range lists {
+					vs, err := c.Versions(ctx, resolve.PackageKey{System: sys, Name: name})
+					obs = append(obs, fmt.Sprintf("%v|%v", err, vs))
+				}
+			}
+		}
+		res.Digest = hashStrings(obs...)
+	}
 	if len(res.Violations) > 0 || o.WantDetail {
 		res.Scenario = map[string]any{"history": k.trace}
 	}
